@@ -756,8 +756,15 @@ def rule_same(ctx):
         res.instance(key)
         calls = [e for e in tr.events if e.kind == "call"]
         chk = [e for e in calls if e.name == "check_ref" and e.recv is not None and k(e.recv) == "param:self"]
-        other = [e for e in calls if e not in chk and e.name not in ("branch", "from_residual", "Ok")]
+        other = [e for e in calls if e not in chk and e.name not in ("branch", "from_residual", "Ok", "Err", "from", "into")]
         tries = [e for e in tr.events if e.kind == "try"]
+        # `if let Err(e) = self.check_ref() { return Err(e) }` / `match .. { Err(e) => return Err(e), .. }` is `?` written out
+        if len(chk) == 1:
+            cv0 = k(chk[0].val)
+            for e in tr.events:
+                if e.kind == "ret" and ("variant:Err.0(%s)" % cv0) in k(e.val) and k(e.val).startswith("call:Err(") and any(cv0 in g[1] for g in e.guards):
+                    tries = tries + [chk[0]]
+                    break
         assigns = [e for e in tr.events if e.kind in ("assign", "assignop")]
         rv = as_term(tr.result)
         proj_ok = False
@@ -766,6 +773,32 @@ def rule_same(ctx):
             while t is not None and (t.op.startswith("proj:") or t.op.startswith("field:")) and t.args:
                 t = as_term(t.args[0])
             proj_ok = t is not None and t.op == "param:self"
+        # `match self.check_ref()[.map(|_| ())] { Ok(..) => Ok(<projection of self>), Err(e) => Err(e) }` is the same function
+        if len(chk) == 1 and not assigns and not proj_ok and not [e for e in other if e.name not in ("map", "map_err", "and_then", "ok", "err", "is_ok", "is_err")]:
+            cv0 = k(chk[0].val)
+
+            def _alts(t):
+                t = as_term(t)
+                if t is None:
+                    return []
+                if t.op.startswith("<match@"):
+                    return [a for x in t.args for a in _alts(x)]
+                if t.op == "ite" and len(t.args) == 3:
+                    return _alts(t.args[1]) + _alts(t.args[2])
+                return [t]
+
+            def _ok_proj(t):
+                if not (t.is_call("Ok") and len(t.args) == 1):
+                    return False
+                u = as_term(t.args[0])
+                while u is not None and (u.op.startswith("proj:") or u.op.startswith("field:")) and u.args:
+                    u = as_term(u.args[0])
+                return u is not None and u.op == "param:self"
+            A = _alts(tr.result)
+            oks = [a for a in A if _ok_proj(a)]
+            errs = [a for a in A if a.is_call("Err") and "variant:Err.0(" in k(a) and cv0 in k(a)]
+            if len(A) >= 2 and oks and errs and len(oks) + len(errs) == len(A):
+                proj_ok, other, tries = True, [], tries + [chk[0]]
         if len(chk) == 1 and not other and not assigns and proj_ok and any(k(t.val) == k(chk[0].val) for t in tries):
             res.ok()
             res.sample({"check": key, "shape": "self.check_ref()?; Ok(<projection of self>)"})
@@ -1155,6 +1188,7 @@ def rule_carry(ctx, rid="R-C04-carry", only=None, floor=2):
         key = fn_key(fn)
         params = set(b["local"] for p_ in fn["params"][1:] for b in pat_bindings(p_))
 
+        aliases = set()
         destructured = {}     # local bound by `let Valid { n_clusters, covar_type: ct, .. } = self.0;` -> field name
         for y in walk(fn["body"]):
             if y.get("k") == "LetStmt" and y.get("init") is not None and y["pat"].get("k") in ("Struct", "TupleStruct"):
@@ -1174,6 +1208,8 @@ def rule_carry(ctx, rid="R-C04-carry", only=None, floor=2):
                                 else:
                                     pats.append(f_["pat"])
                         elif q.get("k") == "TupleStruct":
+                            if len(q.get("pats") or []) == 1 and q["pats"][0].get("k") == "Bind" and i0.get("k") == "Path":
+                                aliases.add(q["pats"][0]["local"])      # `let Params(current) = self;`: current is self.0
                             pats.extend(q.get("pats") or [])
 
         def provenance(e):
@@ -1181,15 +1217,21 @@ def rule_carry(ctx, rid="R-C04-carry", only=None, floor=2):
             e0 = peel_refs(e)
             if e0.get("k") == "Path" and e0.get("local") in destructured:
                 return ("self", destructured[e0["local"]])
+            if e0.get("k") == "Path" and e0.get("local") in aliases:
+                return ("self", "")
             names = []
             t = e0
             while t.get("k") == "Field":
                 names.insert(0, t["name"])
                 t = peel_refs(t["e"])
+            if t.get("k") == "Path" and t.get("local") in aliases and names:
+                return ("self", ".".join(names))
             if t.get("k") == "Path" and t.get("name") == "self" and names and names[0] == "0":
                 return ("self", ".".join(x for x in names if x != "0"))
             if any(z.get("k") == "Path" and z.get("local") in params for z in walk(e0)):
                 return ("arg", None)
+            if e0.get("k") == "Path" and "def" in e0 and (c.dfn(e0["def"]) or {}).get("name") == "None":
+                return ("none", "None")
             return ("other", Render(c).e(e0)[:40])
         carried = {}     # field -> provenance
         lits = [x for x in walk(tail) if x.get("k") == "Struct" and x.get("fields")]
@@ -1258,6 +1300,10 @@ def rule_carry(ctx, rid="R-C04-carry", only=None, floor=2):
                     res.ok()
                 elif pv is None or pv[0] == "default":
                     res.violate("%s : field-reset:%s" % (key, fname), "`%s` rebuilds the parameter set without carrying `%s` over from self: the field falls back to %s, so a value set before the call (valid or not) is silently lost" % (fn["d"]["name"], fname, pv[1] if pv else "a default"), fn_loc(fn))
+                elif pv[0] == "none" and any(v[0] == "arg" for v in carried.values()):
+                    res.ok()        # mode switch: one alternative is set from the argument, the other one cleared
+                elif pv[0] == "none":
+                    res.violate("%s : field-reset:%s" % (key, fname), "`%s` rebuilds the parameter set with `%s` = None instead of the value held by self" % (fn["d"]["name"], fname), fn_loc(fn))
                 elif pv[0] == "self" and pv[1] != fname:
                     res.violate("%s : field-from-other-field:%s" % (key, fname), "`%s` is rebuilt from `self.%s`" % (fname, pv[1]), fn_loc(fn))
                 elif pv[0] == "other":
@@ -1287,9 +1333,15 @@ def c19_regex_default():
     return make_regex_text_rule("R-C04-regextext", "default")
 
 
+def _shortcut_rule():
+    from . import shortcut
+    return shortcut.make_rule("R-C04-shortcut", ALL_CRATES, 15)
+
+
 def rules(tier):
     from . import carry
     return [rule_range, rule_same, rule_dom, rule_forge, rule_default, rule_setter, rule_carry,
             c19_regex_default(),
             carry.make_clone_rule("R-C04-clone", ALL_CRATES, 40), carry.make_setter_rule("R-C04-override", ALL_CRATES, 60),
-            carry.make_accessor_rule("R-C04-accessor", ALL_CRATES, 80), carry.make_ctor_rule("R-C04-ctor", ALL_CRATES, 30)]
+            carry.make_accessor_rule("R-C04-accessor", ALL_CRATES, 80), carry.make_ctor_rule("R-C04-ctor", ALL_CRATES, 30),
+            _shortcut_rule()]
